@@ -224,6 +224,75 @@ func g1Delegate(era, name string) string {
 	return pk.Name + "." + sel.Sel.Name
 }
 
+// g1ForwardsTo is the looser form used where the forwarding function first narrows
+// the protocol parameter type: the last statement is `return pkg.<name>(a, b, c, d)`
+// with as many arguments as the function has parameters, the first three being its own
+// first three parameters, and every other return in the body returns an error value
+// that is not a call to another rule. "self" otherwise.
+func g1ForwardsTo(era, name string) string {
+	p := loadPkg("ledger/" + era)
+	fd := findFunc(p, "", name)
+	if fd == nil || fd.Body == nil || len(fd.Body.List) == 0 {
+		return "missing"
+	}
+	names := []string{}
+	for _, fl := range fd.Type.Params.List {
+		for _, n := range fl.Names {
+			names = append(names, n.Name)
+		}
+	}
+	last, ok := fd.Body.List[len(fd.Body.List)-1].(*ast.ReturnStmt)
+	if !ok || len(last.Results) != 1 {
+		return "self"
+	}
+	call, ok := last.Results[0].(*ast.CallExpr)
+	if !ok || len(call.Args) != len(names) || len(names) < 3 {
+		return "self"
+	}
+	sel, ok := call.Fun.(*ast.SelectorExpr)
+	if !ok || sel.Sel.Name != name {
+		return "self"
+	}
+	pk, ok := sel.X.(*ast.Ident)
+	if !ok {
+		return "self"
+	}
+	for i := 0; i < 3; i++ {
+		id, ok := call.Args[i].(*ast.Ident)
+		if !ok || id.Name != names[i] {
+			return "self"
+		}
+	}
+	// no other statement may call a rule
+	other := false
+	for _, st := range fd.Body.List[:len(fd.Body.List)-1] {
+		ast.Inspect(st, func(n ast.Node) bool {
+			if c, ok := n.(*ast.CallExpr); ok {
+				if s2, ok := c.Fun.(*ast.SelectorExpr); ok && strings.HasPrefix(s2.Sel.Name, "UtxoValidate") {
+					other = true
+				}
+				if id, ok := c.Fun.(*ast.Ident); ok && strings.HasPrefix(id.Name, "UtxoValidate") {
+					other = true
+				}
+			}
+			return true
+		})
+	}
+	if other {
+		return "self"
+	}
+	return pk.Name + "." + sel.Sel.Name
+}
+
+func g1Forwardings(l *leanFile, leanName, fn string, eras []string) {
+	parts := []string{}
+	for _, e := range eras {
+		parts = append(parts, fmt.Sprintf("(\"%s\", \"%s\")", e, g1ForwardsTo(e, fn)))
+	}
+	l.pf("/-- what each era's `%s` forwards to after narrowing the parameter type (\"self\" = has its own body) -/\n", fn)
+	l.pf("def %s : List (String × String) := [%s]\n\n", leanName, strings.Join(parts, ", "))
+}
+
 func g1Delegations(l *leanFile, leanName, fn string, eras []string) {
 	parts := []string{}
 	for _, e := range eras {
@@ -231,6 +300,224 @@ func g1Delegations(l *leanFile, leanName, fn string, eras []string) {
 	}
 	l.pf("/-- what each era's `%s` forwards to (\"self\" = has its own body) -/\n", fn)
 	l.pf("def %s : List (String × String) := [%s]\n\n", leanName, strings.Join(parts, ", "))
+}
+
+// g1MaxSizeSource says what an era's UtxoValidateMaxTxSizeUtxo measures: "stored" when
+// `txBytes` is first assigned from `tx.Cbor()` (with a re-encoding fallback only for an
+// empty result), "encode" when it is assigned from `cbor.Encode(tx)`, "forward:<f>" when
+// the function forwards, "unknown" otherwise.
+func g1MaxSizeSource(era string) string {
+	p := loadPkg("ledger/" + era)
+	fd := findFunc(p, "", "UtxoValidateMaxTxSizeUtxo")
+	if fd == nil || fd.Body == nil {
+		return "missing"
+	}
+	if f := g1ForwardsTo(era, "UtxoValidateMaxTxSizeUtxo"); f != "self" {
+		return "forward:" + f
+	}
+	res := "unknown"
+	done := false
+	ast.Inspect(fd.Body, func(n ast.Node) bool {
+		if done {
+			return false
+		}
+		as, ok := n.(*ast.AssignStmt)
+		if !ok || len(as.Lhs) < 1 || len(as.Rhs) != 1 {
+			return true
+		}
+		id, ok := as.Lhs[0].(*ast.Ident)
+		if !ok || id.Name != "txBytes" {
+			return true
+		}
+		call, ok := as.Rhs[0].(*ast.CallExpr)
+		if !ok {
+			return true
+		}
+		sel, ok := call.Fun.(*ast.SelectorExpr)
+		if !ok {
+			return true
+		}
+		x, _ := sel.X.(*ast.Ident)
+		switch {
+		case x != nil && x.Name == "tx" && sel.Sel.Name == "Cbor" && len(call.Args) == 0:
+			res = "stored"
+		case x != nil && x.Name == "cbor" && sel.Sel.Name == "Encode" && len(call.Args) == 1:
+			res = "encode"
+		}
+		done = true
+		return false
+	})
+	return res
+}
+
+// g1MarshalStoredFirst: does (*<Type>).MarshalCBOR start with
+// `cborData := t.DecodeStoreCbor.Cbor(); if cborData != nil (or len(cborData) > 0) { return cborData, nil }` ?
+func g1MarshalStoredFirst(era, typ string) bool {
+	p := loadPkg("ledger/" + era)
+	fd := findFunc(p, typ, "MarshalCBOR")
+	if fd == nil || fd.Body == nil || len(fd.Body.List) < 2 {
+		return false
+	}
+	as, ok := fd.Body.List[0].(*ast.AssignStmt)
+	if !ok || len(as.Lhs) != 1 || len(as.Rhs) != 1 {
+		return false
+	}
+	v, ok := as.Lhs[0].(*ast.Ident)
+	if !ok {
+		return false
+	}
+	call, ok := as.Rhs[0].(*ast.CallExpr)
+	if !ok {
+		return false
+	}
+	sel, ok := call.Fun.(*ast.SelectorExpr)
+	if !ok || sel.Sel.Name != "Cbor" {
+		return false
+	}
+	inner, ok := sel.X.(*ast.SelectorExpr)
+	if !ok || inner.Sel.Name != "DecodeStoreCbor" {
+		return false
+	}
+	is, ok := fd.Body.List[1].(*ast.IfStmt)
+	if !ok || is.Init != nil || len(is.Body.List) != 1 {
+		return false
+	}
+	be, ok := is.Cond.(*ast.BinaryExpr)
+	if !ok {
+		return false
+	}
+	condOk := false
+	if id, ok := be.X.(*ast.Ident); ok && id.Name == v.Name && be.Op == token.NEQ {
+		if y, ok := be.Y.(*ast.Ident); ok && y.Name == "nil" {
+			condOk = true
+		}
+	}
+	if c, ok := be.X.(*ast.CallExpr); ok && be.Op == token.GTR {
+		if f, ok := c.Fun.(*ast.Ident); ok && f.Name == "len" && len(c.Args) == 1 {
+			if a, ok := c.Args[0].(*ast.Ident); ok && a.Name == v.Name {
+				if y, ok := be.Y.(*ast.BasicLit); ok && y.Value == "0" {
+					condOk = true
+				}
+			}
+		}
+	}
+	if !condOk {
+		return false
+	}
+	r, ok := is.Body.List[0].(*ast.ReturnStmt)
+	if !ok || len(r.Results) != 2 {
+		return false
+	}
+	r0, ok0 := r.Results[0].(*ast.Ident)
+	r1, ok1 := r.Results[1].(*ast.Ident)
+	return ok0 && ok1 && r0.Name == v.Name && r1.Name == "nil"
+}
+
+// g1VcCases lists, for an era's UtxoValidateValueNotConservedUtxo, which certificate types
+// add to which side of the balance and where the amount comes from:
+// (side "consumed"|"produced", certificate type, source "KeyDeposit"|"PoolDeposit"|"Amount").
+func g1VcCases(era string) [][3]string {
+	p := loadPkg("ledger/" + era)
+	fd := findFunc(p, "", "UtxoValidateValueNotConservedUtxo")
+	if fd == nil || fd.Body == nil {
+		fatal("g1 vc cases: ledger/%s: function not found", era)
+	}
+	res := [][3]string{}
+	ast.Inspect(fd.Body, func(n ast.Node) bool {
+		ts, ok := n.(*ast.TypeSwitchStmt)
+		if !ok {
+			return true
+		}
+		for _, cl := range ts.Body.List {
+			cc := cl.(*ast.CaseClause)
+			types := []string{}
+			for _, t := range cc.List {
+				if st, ok := t.(*ast.StarExpr); ok {
+					if sel, ok := st.X.(*ast.SelectorExpr); ok {
+						types = append(types, sel.Sel.Name)
+					}
+				}
+			}
+			for _, st := range cc.Body {
+				ast.Inspect(st, func(m ast.Node) bool {
+					call, ok := m.(*ast.CallExpr)
+					if !ok {
+						return true
+					}
+					sel, ok := call.Fun.(*ast.SelectorExpr)
+					if !ok || sel.Sel.Name != "Add" || len(call.Args) != 2 {
+						return true
+					}
+					recv, ok := sel.X.(*ast.Ident)
+					if !ok || (recv.Name != "consumedValue" && recv.Name != "producedValue") {
+						return true
+					}
+					src := "other"
+					ast.Inspect(call.Args[1], func(k ast.Node) bool {
+						if s2, ok := k.(*ast.SelectorExpr); ok {
+							switch s2.Sel.Name {
+							case "KeyDeposit", "PoolDeposit", "Amount":
+								src = s2.Sel.Name
+							}
+						}
+						return true
+					})
+					side := strings.TrimSuffix(recv.Name, "Value")
+					for _, ty := range types {
+						res = append(res, [3]string{side, ty, src})
+					}
+					return false
+				})
+			}
+		}
+		return true
+	})
+	return res
+}
+
+// g1DepositRuleCases: (certificate type, what its amount is compared with) for
+// conway.UtxoValidateCertificateDeposits; empty when the rule does not exist.
+func g1DepositRuleCases() [][2]string {
+	p := loadPkg("ledger/conway")
+	fd := findFunc(p, "", "UtxoValidateCertificateDeposits")
+	res := [][2]string{}
+	if fd == nil || fd.Body == nil {
+		return res
+	}
+	ast.Inspect(fd.Body, func(n ast.Node) bool {
+		ts, ok := n.(*ast.TypeSwitchStmt)
+		if !ok {
+			return true
+		}
+		for _, cl := range ts.Body.List {
+			cc := cl.(*ast.CaseClause)
+			src := "none"
+			for _, st := range cc.Body {
+				ast.Inspect(st, func(m ast.Node) bool {
+					if s2, ok := m.(*ast.SelectorExpr); ok {
+						switch s2.Sel.Name {
+						case "KeyDepositAmount":
+							src = "KeyDeposit"
+						case "DRepDepositAmount":
+							src = "DRepDeposit"
+						case "Deposit":
+							src = "Recorded"
+						}
+					}
+					return true
+				})
+			}
+			for _, t := range cc.List {
+				if st, ok := t.(*ast.StarExpr); ok {
+					if sel, ok := st.X.(*ast.SelectorExpr); ok {
+						res = append(res, [2]string{sel.Sel.Name, src})
+					}
+				}
+			}
+		}
+		return true
+	})
+	return res
 }
 
 // g1PkgDirs maps a package qualifier used in rule files to its directory.
@@ -344,6 +631,43 @@ func init() {
 		g1GuardFunc(l, g1Guard{"ledger/allegra", "UtxoValidateOutsideValidityIntervalUtxo", "allegraOutsideValidityInterval"})
 		g1Delegations(l, "validityDelegation", "UtxoValidateOutsideValidityIntervalUtxo",
 			[]string{"allegra", "mary", "alonzo", "babbage", "conway"})
+		g1Forwardings(l, "valueConservationDelegation", "UtxoValidateValueNotConservedUtxo", []string{"allegra", "dijkstra"})
+		g1Forwardings(l, "feeTooSmallDelegation", "UtxoValidateFeeTooSmallUtxo", []string{"allegra"})
+		g1Forwardings(l, "maxTxSizeDelegation", "UtxoValidateMaxTxSizeUtxo", []string{"allegra"})
+		{
+			parts := []string{}
+			for _, e := range []string{"shelley", "mary", "alonzo", "babbage", "conway", "dijkstra"} {
+				parts = append(parts, fmt.Sprintf("(\"%s\", \"%s\")", e, g1MaxSizeSource(e)))
+			}
+			l.pf("/-- what `UtxoValidateMaxTxSizeUtxo` measures per era -/\n")
+			l.pf("def maxSizeSource : List (String × String) := [%s]\n\n", strings.Join(parts, ", "))
+			parts = []string{}
+			for _, e := range [][2]string{{"alonzo", "AlonzoTransaction"}, {"babbage", "BabbageTransaction"}, {"conway", "ConwayTransaction"}} {
+				b := "false"
+				if g1MarshalStoredFirst(e[0], e[1]) {
+					b = "true"
+				}
+				parts = append(parts, fmt.Sprintf("(\"%s\", %s)", e[0], b))
+			}
+			l.pf("/-- does the era's transaction `MarshalCBOR` return the stored original bytes first? -/\n")
+			l.pf("def marshalReturnsStoredFirst : List (String × Bool) := [%s]\n\n", strings.Join(parts, ", "))
+		}
+		for _, e := range []string{"shelley", "mary", "alonzo", "babbage", "conway"} {
+			parts := []string{}
+			for _, c := range g1VcCases(e) {
+				parts = append(parts, fmt.Sprintf("(\"%s\", \"%s\", \"%s\")", c[0], c[1], c[2]))
+			}
+			l.pf("/-- ledger/%s UtxoValidateValueNotConservedUtxo: (side, certificate type, where the amount comes from) -/\n", e)
+			l.pf("def vcCases_%s : List (String × String × String) := [%s]\n\n", e, strings.Join(parts, ", "))
+		}
+		{
+			parts := []string{}
+			for _, c := range g1DepositRuleCases() {
+				parts = append(parts, fmt.Sprintf("(\"%s\", \"%s\")", c[0], c[1]))
+			}
+			l.pf("/-- conway.UtxoValidateCertificateDeposits: (certificate type, what its amount is compared with) -/\n")
+			l.pf("def depositRuleCases : List (String × String) := [%s]\n\n", strings.Join(parts, ", "))
+		}
 		g1CondFact(l, "ledger/conway", "UtxoValidateWithdrawals", "protocolMajor", "withdrawalsGateSkipped")
 		g1Delegations(l, "withdrawalsDelegation", "UtxoValidateWithdrawals", []string{"conway"})
 		l.pf("end GV.Gen.G1Rules\n")
